@@ -362,3 +362,29 @@ def deep_sources(body, o, depth=8, seen=None):
             n2, c2, f2 = deep_sources(body, sub, depth - 1, seen)
             names |= n2; callees |= c2; fields |= f2
     return names, callees, fields
+
+
+def upvar_names(body, o, depth=4):
+    """names of captured variables (closure upvars) an operand is read from"""
+    out = set()
+    if depth == 0 or not is_local_op(o):
+        return out
+    for org in origins(body, o):
+        if org[0] != 'place':
+            continue
+        pl = org[1]
+        n = body.upvar_of(pl)
+        if n:
+            out.add(n)
+            continue
+        if pl.get('p') and all(x == '*' for x in pl['p']):
+            for pos, st in defs_of(body, pl['l']):
+                if st['k'] == 'assign' and st['rv']['k'] in ('use', 'ref'):
+                    src = st['rv'].get('o') or st['rv'].get('pl')
+                    if isinstance(src, dict) and 'l' in src:
+                        n2 = body.upvar_of(src)
+                        if n2:
+                            out.add(n2)
+                        else:
+                            out |= upvar_names(body, {'l': src['l'], 'p': []}, depth - 1)
+    return out
